@@ -49,6 +49,8 @@ pub(crate) struct DependencyManagement {
 
 #[derive(Debug, Clone, Deserialize, Serialize)]
 pub(crate) struct Dependencies<Scope> {
+	/// An empty `<dependencies/>` element is allowed and means the same as leaving the element out.
+	#[serde(default = "Vec::new")]
 	pub(crate) dependency: Vec<Dependency<Scope>>,
 }
 
